@@ -44,6 +44,14 @@ structure Quirks where
   bexpConjoinsIntermediates : Bool := false
   /-- py2bexp calls `to_cnf/to_dnf(simplify=True)` without `force`: ValueError above 8 variables -/
   nfVarLimit : Bool := false
+  /-- QASM exporter: gate formals are `qubit_map.keys()` (one per name, insertion order) -/
+  qasmFormalsFromKeys : Bool := false
+  /-- QASM exporter: parameters printed with `{p:.2f}` -/
+  qasmParam2f : Bool := false
+  /-- qiskit/QASM exporters: `if p:` drops a parameter that is 0 -/
+  exportParamTruthy : Bool := false
+  /-- cirq exporter raises on `Barrier` / `NopGate` -/
+  cirqNopRaises : Bool := false
   deriving Repr, DecidableEq, Inhabited
 
 def Quirks.none : Quirks := {}
@@ -66,6 +74,10 @@ def Quirks.ofList (l : List String) : Quirks :=
     djDecodeEqZero := l.contains "djDecodeEqZero"
     dimacsAtomCnf := l.contains "dimacsAtomCnf"
     bexpConjoinsIntermediates := l.contains "bexpConjoinsIntermediates"
-    nfVarLimit := l.contains "nfVarLimit" }
+    nfVarLimit := l.contains "nfVarLimit"
+    qasmFormalsFromKeys := l.contains "qasmFormalsFromKeys"
+    qasmParam2f := l.contains "qasmParam2f"
+    exportParamTruthy := l.contains "exportParamTruthy"
+    cirqNopRaises := l.contains "cirqNopRaises" }
 
 end QV
